@@ -116,6 +116,26 @@ pub fn run_mode(env: &mut Env, c04_mode: bool) -> Outcome {
             Ok(Ok(())) => {}
         }
     }
+    if second_activation && ctxrc.borrow_mut().chance("third_activation", 1, 3) {
+        let id3 = params.share_id.wrapping_add(0x00770000);
+        {
+            let mut srv = s.world.server.borrow_mut();
+            srv.phase = Phase::Activation;
+            srv.send_deactivate_all();
+            srv.send_demand_active(id3);
+            srv.flush();
+        }
+        expected_act = 3;
+        ctxrc.borrow_mut().probe("third_activation");
+        match s.activate(40) {
+            Err(o) => return o,
+            Ok(Err(k)) => {
+                if c04_mode { return c04_or_pass(&s); }
+                return viol("c03/reactivation-failed", &k, format!("read failed during the third activation: {}", k));
+            }
+            Ok(Ok(())) => {}
+        }
+    }
     // a few input events: they must carry the identifiers of the latest activation
     for j in 0..n_inputs {
         let ev = if j % 2 == 0 {
